@@ -1,2 +1,3 @@
+@synapse.setter
 def spec(self, value):
     self.synapse_ = value
